@@ -655,6 +655,16 @@ func init() {
 					style = "full"
 				}
 			}
+			if r.n(6) == 0 {
+				// two or three threshold shorthands on one command line: the last one wins on every run
+				// (seeded C17q applied them by ranging over a map)
+				th := []string{"--verbose", "--critical", "--no-verbose", "-v", "--threshold=2"}
+				k := 2 + r.n(2)
+				for j := 0; j < k; j++ {
+					args = append(args, th[r.n(len(th))])
+				}
+				format = []string{"table", "json2"}[r.n(2)]
+			}
 			if r.n(12) == 0 {
 				objs, times, refs = bigTreeRepo(r)
 				objs = realSizes(objs, times)
